@@ -47,7 +47,7 @@ Definition cfg_site_ok (s : site) : bool :=
   match s with
   | (file, fn, expr, kind) =>
     if String.eqb kind "cargo-feature" then cargo_feature_ok fn expr
-    else if String.eqb kind "cargo-dep" then cargo_dep_ok fn expr
+    else if String.eqb kind "cargo-dep" || String.eqb kind "cargo-dep-opt" then cargo_dep_ok fn expr
     else if String.eqb expr "unic_locale_verif" then String.eqb kind "mod"
     else
       no_cfg_not expr &&
